@@ -71,7 +71,7 @@ def result_shaping(model):
     if not parser_names:
         raise AnalysisError('parse(): per-piece parser not recognised')
     for p in paths:
-        if p.end != 'return':
+        if p.end not in ('return', 'fall'):      # falling off the end of parse() returns None
             continue
         out['n_paths'] += 1
         env = {}
@@ -93,7 +93,7 @@ def result_shaping(model):
         text = re.sub(r'^\((.*)\)$', r'\1', text)
         form = classify(text, pieces or {'grid_data'}, parser_names)
         if form is None:
-            raise AnalysisError('parse(): return value `%s` (line %d) not classified' % (text[:80], p.end_node.lineno))
+            raise AnalysisError('parse(): return value `%s` (line %d) not classified' % (text[:80], getattr(p.end_node, 'lineno', fn.lineno)))
         single = p.last_cond('single')
         if single is None:
             neg = p.last_cond('not single')
@@ -109,13 +109,13 @@ def result_shaping(model):
             elif any(base == 'not %s' % x or base == 'len(%s) == 0' % x for x in names):
                 empt = v
         if single is None:
-            raise AnalysisError('parse(): a return (line %d) does not depend on `single`' % p.end_node.lineno)
+            raise AnalysisError('parse(): a return (line %d) does not depend on `single`' % getattr(p.end_node, 'lineno', fn.lineno))
         key = 'multi' if not single else ('single_empty' if empt else 'single_nonempty')
         if single and empt is None:
             # no emptiness test on this path: the form must cover both (e.g. next(iter(..), None)) -- not modelled
             raise AnalysisError('parse(): single=True return `%s` without an emptiness test' % text[:60])
         out[key].add(form)
-        out['nodes'].setdefault((key, form), p.end_node)
+        out['nodes'].setdefault((key, form), p.end_node if p.end_node is not None else fn)
     return out
 
 
